@@ -3087,10 +3087,17 @@ func checkServiceNodesTxn(tx ReadTxn, ws memdb.WatchSet, serviceName string, con
 			// service's own native instances, its sidecars, gateways). When every
 			// instance of ONE of those names goes away its index row is removed,
 			// so the max over the remaining names may be lower than what this
-			// query reported before. The extinction index keeps it from sliding back.
+			// query reported before. The extinction index keeps it from sliding
+			// back, and the queried service's own index covers the case where its
+			// last native instance left while plain instances remain.
 			if res, err := catalogServiceLastExtinctionIndex(tx, entMeta, peerName); err == nil {
 				if extIdx, ok := res.(*IndexEntry); ok {
 					idx = lib.MaxUint64(idx, extIdx.Value)
+				}
+			}
+			if _, res, err := catalogServiceMaxIndex(tx, serviceName, entMeta, peerName); err == nil {
+				if own, ok := res.(*IndexEntry); ok {
+					idx = lib.MaxUint64(idx, own.Value)
 				}
 			}
 		}
